@@ -250,12 +250,12 @@ theorem JobOK.jn_getD {cfg : Cfg} {s : St} {d : Disk} {j : Job} (h : JobOK cfg s
     flush job has committed (nothing to show), a compaction does not touch the journal and sequence numbers, a
     transaction has no frozen buffer beside it -/
 theorem RunOK.hnc_post {cfg : Cfg} {s : St} {d : Disk} {j j' : Job} (hrun : RunOK cfg s d) (hok : JobOK cfg s d j)
-    (hj : s.job = some j) (hr : s.phase = .running) (hk' : j'.kind = j.kind) (hpost : j'.pc.beforeCommit = false)
+    (hj : s.job = some j) (hr : s.phase = .running) (hk' : j'.kind = j.kind) (hpost : j'.pc.uninstalled = false)
     {nf' : Nat} {l' : List Nat} {a' b' : Nat} {m' : Option Nat} {o' : Bool}
     (hv : j.kind = .compaction → a' = s.stJn ∧ b' = s.stSq) :
     s.frozen ≠ none → FlushPending (s.upd j' nf' l' a' b' m' o') → FlushPending s ∧ a' = s.stJn ∧ b' = s.stSq := by
   intro hfz hfp
-  have hfp' : j'.kind = .flush → j'.pc.beforeCommit = true := hfp
+  have hfp' : j'.kind = .flush → j'.pc.uninstalled = true := hfp
   rcases hok.kind_running hr with hk | hk | hk
   · have := hfp' (hk'.trans hk)
     rw [hpost] at this; cases this
